@@ -179,10 +179,10 @@ def correspondence(res, r, n_wild, n_dialect, corpus_types):
     body += "Definition cases := [\n" + ";\n".join(
         "(%s, %s, %s)" % (L.to_coq(c["loaded"][1]), L.def_to_coq(c["pre"]), L.def_to_coq(c["post"]))
         for c in chunk) + "].\n"
-    body += "Eval vm_compute in map (fun c => deq (out_top A (conv_var A (fst (fst c)))) (snd (fst c))) cases.\n"
+    body += "Eval vm_compute in map (fun c => deq (downstream A (fst (fst c))) (snd (fst c))) cases.\n"
     body += "Eval vm_compute in map (fun c => wf_top A (fst (fst c))) cases.\n"
     body += "Eval vm_compute in map (fun c => teq (canon (def_ty (snd c))) (canon (fst (fst c)))) cases.\n"
-    body += "Eval vm_compute in map (fun c => teq (canon (def_ty (out_top A (conv_var A (fst (fst c)))))) (canon (fst (fst c)))) cases.\n"
+    body += "Eval vm_compute in map (fun c => teq (canon (def_ty (downstream A (fst (fst c))))) (canon (fst (fst c)))) cases.\n"
     bodies.append(("c06_corr_%d" % (k // CH), body))
   t1 = time.time()
   outs = common.run_cases_parallel(bodies)
@@ -247,7 +247,7 @@ def correspondence(res, r, n_wild, n_dialect, corpus_types):
     T = c["loaded"][1]
     try:
       l1, p1, _, _ = L.round_trip(["x0: " + L.to_text(c["gen"])], os.path.join(WORK, "corr1"))
-      body = HEADER + "Eval vm_compute in deq (out_top A (conv_var A %s)) %s.\n" % (L.to_coq(l1[0][1]), L.def_to_coq(p1[0]))
+      body = HEADER + "Eval vm_compute in deq (downstream A %s) %s.\n" % (L.to_coq(l1[0][1]), L.def_to_coq(p1[0]))
       ok1, out1 = common.run_cases_v("c06_corr_single", body)
       same = ok1 and common.parse_coq_eval(out1)[0].strip() == "true"
     except Exception:  # pylint: disable=broad-except
@@ -388,7 +388,7 @@ def e2e(res, r, n_programs, n_workers, budget_s, corpus_programs):
   kinds = {}
   n_expect = 0
   reported = 0
-  n_inside = n_infdecl = n_tainted = 0
+  n_inside = n_infdecl = n_tainted = n_undecided = 0
   known_hits = {}
   for jid, rr in sorted(results.items()):
     st = rr.get("status")
@@ -404,6 +404,7 @@ def e2e(res, r, n_programs, n_workers, budget_s, corpus_programs):
     n_inside += rr.get("n_probes_inside", 0)
     n_infdecl += rr.get("inferred_differs_from_declared", 0)
     n_tainted += rr.get("tainted", 0)
+    n_undecided += rr.get("undecided_constructed", 0)
     seen_known = set()
     for iss in rr.get("issues", []):
       if iss["kind"] in E.KNOWN_KINDS and iss["kind"] not in seen_known:
@@ -452,6 +453,7 @@ def e2e(res, r, n_programs, n_workers, budget_s, corpus_programs):
   res.extra["e2e_probes_inside_values"] = n_inside
   res.extra["e2e_names_not_compared_oracle_built_a_bad_call"] = n_tainted
   res.extra["e2e_B_equals_declared_but_A_inferred_other"] = n_infdecl
+  res.extra["e2e_constructed_probes_without_declared_type_not_decided"] = n_undecided
   res.extra["e2e_known_finding_programs"] = known_hits
   res.extra["e2e_wall_s"] = round(wall, 1)
 
